@@ -403,7 +403,7 @@ func TestC13_ColdStart(t *testing.T) {
 // the race detector cannot see when the shared state is properly locked but wrongly used).
 func TestC13_Hammer(t *testing.T) {
 	cfg := Cfg()
-	rounds := cfg.Pick(150, 600)
+	rounds := cfg.Pick(150, 400)
 	rec := NewRecorder("C13", "hammer", fmt.Sprintf("4-16 goroutines, each owning a different rapid-generated compound expression and allowed list, alternate ExtractLicenses / Satisfies / ValidateLicenses on it for %d rounds after the sequential answers were recorded; built with -race; same oracle as the histories check; non-trivial = every history; distinct by history", rounds))
 	defer rec.Finish(t)
 	tb := Tbl()
